@@ -21,8 +21,8 @@ KINDS = "map,cont,flag,counter,i64,u32,u64,str,gas"
 
 # driver rounds (a gas round yields one history per function it executed, so the number of validated histories is larger)
 TIERS = {
-    "quick": dict(plain=[500] * 3, race=[400] * 3, bulk_plain=1000, bulk_race=1500, bulkreps=1, par=4),
-    "thorough": dict(plain=[2500] * 16, race=[2000] * 12, bulk_plain=4000, bulk_race=4000, bulkreps=3, par=6),
+    "quick": dict(plain=[500] * 3, race=[400] * 3, bulk_plain=1000, bulk_race=1500, bulkreps=1, par=3),
+    "thorough": dict(plain=[2500] * 16, race=[2000] * 12, bulk_plain=4000, bulk_race=4000, bulkreps=2, par=5),
 }
 
 LOCK_CFG = "SPECIFICATION LSpec\nCONSTANT NoLock = FALSE\nINVARIANTS LTypeOK OneSchedule HeldStable MutualExclusion\n"
@@ -386,6 +386,15 @@ def race_sites(report):
     return out
 
 
+_VLOCK = threading.Lock()
+
+
+def add_violation(run, pred, desc, robj):
+    """run.add_violation numbers the replay files by the violations registered so far: one at a time (chunks are judged in threads)."""
+    with _VLOCK:
+        run.add_violation(pred, desc, robj)
+
+
 def classify(ls):
     if any(d["e"] == "race" for d in ls):
         return "P19_NoRace"
@@ -400,7 +409,7 @@ def judge_chunk(run, d, tag, maxviol=6):
     """Validates one recorded trace; registers a violation for every rejected round (after an exhaustive single-round search)."""
     cnt = Counter()
     if d["crash"]:
-        run.add_violation("P19_NoRace", {"kind": "crash", "what": d["crash"].splitlines()[0][:200]},
+        add_violation(run, "P19_NoRace", {"kind": "crash", "what": d["crash"].splitlines()[0][:200]},
                           {"family": "conc", "history": [], "driver": {"args": d["args"], "race": d["race"]}, "report": d["crash"]})
         return {"rounds": 0, "accepted": 0, "ops": 0, "cnt": cnt, "stats": {}}
     rounds = read_rounds(d["trace"])
@@ -440,12 +449,12 @@ def judge_chunk(run, d, tag, maxviol=6):
         rep = next((x.get("report") for x in ls if x["e"] == "race"), None)
         if rep:
             desc["race_at"] = race_sites(rep)
-        run.add_violation(pred, desc, {"family": "conc", "history": single, "driver": {"args": d["args"], "race": d["race"]},
+        add_violation(run, pred, desc, {"family": "conc", "history": single, "driver": {"args": d["args"], "race": d["race"]},
                                        "report": rep or d.get("racelog", "")[:6000], "tlc": "high-water mark %d of %d lines; the search of this round was exhaustive" % hw1})
     if len(rejected) > maxviol:
         cnt["rejected_not_recheck"] = len(rejected) - maxviol
     if d.get("late_race"):
-        run.add_violation("P19_NoRace", {"kind": "race-report", "what": d["late_race"].splitlines()[0][:200] if d["late_race"] else ""},
+        add_violation(run, "P19_NoRace", {"kind": "race-report", "what": d["late_race"].splitlines()[0][:200] if d["late_race"] else ""},
                           {"family": "conc", "history": [], "driver": {"args": d["args"], "race": d["race"]}, "report": d["late_race"]})
     return {"rounds": len(rounds), "accepted": len(acc), "ops": d["stats"]["ops"], "cnt": cnt, "stats": d["stats"], "sample": rounds}
 
@@ -495,13 +504,15 @@ def run_c19(run):
     tot = dict(rounds=0, accepted=0, ops=0, overlaps=0, races=0, bulk_rounds=0)
     by_kind = Counter()
     first_rounds = None
+    def chunk(j):
+        d = drive(run, *j)
+        return d, judge_chunk(run, d, j[6])
+
+    # a few drivers run side by side (which also varies the load the goroutines meet), each followed by its validation
     with ThreadPoolExecutor(max_workers=cfg["par"]) as ex:
-        futs = []
-        for j in jobs:          # the drivers run one after the other (they want the cores for themselves); validation overlaps
-            d = drive(run, *j)
-            futs.append((j, d, ex.submit(judge_chunk, run, d, j[6])))
-        for j, d, f in futs:
-            r = f.result()
+        futs = [(j, ex.submit(chunk, j)) for j in jobs]
+        for j, f in futs:
+            d, r = f.result()
             total.update(r["cnt"])
             tot["rounds"] += r["rounds"]
             tot["accepted"] += r["accepted"]
@@ -512,6 +523,7 @@ def run_c19(run):
             by_kind.update(st.get("by_kind", {}))
             if first_rounds is None and r.get("sample"):
                 first_rounds = r["sample"]
+            r.pop("sample", None)
             if run.tier == "thorough" and os.path.exists(d["trace"]) and not run.violations and j[6] not in ("p0", "r0"):
                 os.remove(d["trace"])
     if first_rounds:
